@@ -109,12 +109,12 @@ PROPERTIES = {
                          "internal/httpgen/zz_verif_c12_field.go": "harness/c12/c12_field_rules.go",
                          "internal/httpgen/zz_verif_c12_struct.go": "harness/c12/c12_struct_rules.go",
                          "internal/httpgen/zz_verif_c12_http.go": "harness/c12/c12_http_rules.go"},
-                harnesses=[dict(func=f, reach=["C12/%s/decided" % r, "C12/%s/imported" % r], quick=dict(budget=300, parts=4), thorough=dict(budget=1200, parts=8))
+                harnesses=[dict(func=f, reach=["C12/%s/decided" % r, "C12/%s/imported" % r] + (["C12/nullable/oneof-member"] if r == "nullable" else []), quick=dict(budget=300, parts=4), thorough=dict(budget=1200, parts=8))
                            for f, r in [("VerifC12Nullable", "nullable"), ("VerifC12EmptyBehavior", "empty_behavior"),
                                         ("VerifC12TimestampFormat", "timestamp_format"), ("VerifC12BytesEncoding", "bytes_encoding"),
                                         ("VerifC12Flatten", "flatten"), ("VerifC12Oneof", "oneof"), ("VerifC12Enum", "enum"), ("VerifC12Unwrap", "unwrap")]]
                 + [dict(func="VerifC12HTTPConfig", reach=["C12/http/decided"], quick=dict(budget=300, parts=8, flags=["-maxpaths", "200000"]), thorough=dict(budget=1500, parts=16, flags=["-maxpaths", "400000"]))],
-                bounds_text={"quick": "per rule: one message with one field of symbolic kind (quick: 9 representative kinds, thorough: all 17) x cardinality (singular/optional/repeated/map) x annotation value, plus a plain sibling; placed top-level / nested / in a non-service file of the run / in an imported file; the file set also holds one service with one POST method; both Go generators run in full (recording emission stubs)"},
+                bounds_text={"quick": "per rule: one message with one field of symbolic kind (quick: 9 representative kinds, thorough: all 17) x cardinality (singular/optional/repeated/map) x annotation value, plus a plain sibling (nullable: the field may also be a member of a real oneof with that sibling); placed top-level / nested / in a non-service file of the run / in an imported file; the file set also holds one service with one POST method; both Go generators run in full (recording emission stubs)"},
                 assumptions=["cases the rule text leaves open are assumed away and listed: repeated Timestamp with timestamp_format, repeated bytes with bytes_encoding"]),
     "C02": E_BINDING(
         overlay={"gen/binding/zz_verif_c02.go": "harness/c02/c02_binding.go"},
@@ -291,14 +291,14 @@ PROPERTIES = {
         harnesses=[dict(func=f, reach=[r], quick=dict(budget=200), thorough=dict(budget=600)) for f, r in [
                      ("VerifC04Int64", "C04/int64/decided"), ("VerifC04Nullable", "C04/nullable/decided"), ("VerifC04EmptyBehavior", "C04/empty_behavior/decided"),
                      ("VerifC04Flatten", "C04/flatten/decided"), ("VerifC04FlattenChild", "C04/flatten-child/decided"), ("VerifC04FlattenSameName", "C04/flatten-same-name/decided"), ("VerifC04Oneof", "C04/oneof/decided"),
-                     ("VerifC04OneofFlat", "C04/oneof-flat/decided"), ("VerifC04Bytes", "C04/bytes/decided"), ("VerifC04Time", "C04/time/decided"), ("VerifC05UnwrapMap", "C04/unwrap-map/decided"), ("VerifC05UnwrapRoot", "C04/unwrap-root/decided")]],
+                     ("VerifC04OneofFlat", "C04/oneof-flat/decided"), ("VerifC04Bytes", "C04/bytes/decided"), ("VerifC04Time", "C04/time/decided"), ("VerifC05UnwrapMap", "C04/unwrap-map/decided"), ("VerifC05UnwrapMapMessages", "C04/unwrap-map-messages/decided"), ("VerifC05UnwrapRoot", "C04/unwrap-root/decided")]],
         bounds_text={"quick": "one message type per annotation (int64 NUMBER singular/unsigned/repeated 0..2, nullable optional string+int32, empty_behavior PRESERVE/NULL/OMIT, flatten with prefix, flatten of a child with multi-word/64-bit fields, discriminated oneof nested and flattened with a custom oneof_value, bytes HEX/BASE64URL); all field values symbolic (integers full range, strings <= 2, presence bits, oneof case); obligations: MarshalJSON succeeds, UnmarshalJSON(MarshalJSON(m)) = m up to the documented losses, the canonical form M(m) is accepted"},
         assumptions=E_ASSUMPTIONS + CODEC_ASSUMPTIONS + ["go-client emits the same codec text as go-http for these features (decided by C14), so the client side is not re-run here"]),
     "C05": E_CODECS(
         harnesses=[dict(func=f, reach=[r], quick=dict(budget=200), thorough=dict(budget=600)) for f, r in [
                      ("VerifC04Int64", "C04/int64/decided"), ("VerifC04Nullable", "C04/nullable/decided"), ("VerifC04EmptyBehavior", "C04/empty_behavior/decided"),
                      ("VerifC04Flatten", "C04/flatten/decided"), ("VerifC04FlattenChild", "C04/flatten-child/decided"), ("VerifC04FlattenSameName", "C04/flatten-same-name/decided"), ("VerifC04Oneof", "C04/oneof/decided"),
-                     ("VerifC04OneofFlat", "C04/oneof-flat/decided"), ("VerifC04Bytes", "C04/bytes/decided"), ("VerifC04Time", "C04/time/decided"), ("VerifC05UnwrapMap", "C04/unwrap-map/decided"), ("VerifC05UnwrapRoot", "C04/unwrap-root/decided"), ("VerifC05FlattenAnnotatedChild", "C05/flatten-annotated/decided")]] + [dict(func="VerifC05Nested", reach=["C05/nested/decided", "C05/nested/kf"], quick=dict(budget=200), thorough=dict(budget=600)),
+                     ("VerifC04OneofFlat", "C04/oneof-flat/decided"), ("VerifC04Bytes", "C04/bytes/decided"), ("VerifC04Time", "C04/time/decided"), ("VerifC05UnwrapMap", "C04/unwrap-map/decided"), ("VerifC05UnwrapMapMessages", "C04/unwrap-map-messages/decided"), ("VerifC05UnwrapRoot", "C04/unwrap-root/decided"), ("VerifC05FlattenAnnotatedChild", "C05/flatten-annotated/decided")]] + [dict(func="VerifC05Nested", reach=["C05/nested/decided", "C05/nested/kf"], quick=dict(budget=200), thorough=dict(budget=600)),
                                                                                                    dict(func="VerifC05ResponsePath", reach=["C05/response-path/decided"], quick=dict(budget=100), thorough=dict(budget=300)),
                                                                                                    dict(func="VerifC05EnumCodec", reach=["C05/enum-codec/decided"], quick=dict(budget=60), thorough=dict(budget=120)),
                                                                                                    dict(func="VerifC05EnumInMessage", reach=["C05/enum/decided", "C05/enum/kf"], quick=dict(budget=60), thorough=dict(budget=120))],
